@@ -92,6 +92,8 @@ def physical(draw, nrev, hist):
         out.append({
             "form": form, "pack": pack, "nstm": draw(st.integers(1, 3)),
             "eol": draw(st.sampled_from([b"\n", b"\r\n", b"\r"])),
+            # the dictionary may follow the keyword `trailer` on the same line
+            **({"trailer_sep": draw(st.sampled_from([b" ", b"", b"  ", b"\t"]))} if draw(st.integers(0, 3)) == 0 else {}),
             "entry_eol": draw(st.sampled_from([b" \n", b" \r", b"\r\n"])),
             "split": draw(st.booleans()), "pad_free": draw(st.booleans()),
             "w": draw(st.sampled_from([[1, 2, 1], [1, 3, 2], [1, 4, 2], [0, 2, 0], [2, 4, 2], [1, 2, 0]])),
